@@ -999,6 +999,18 @@ fn report_duplicate_definitions(
                 }
             }
             hir::Def::ExternGo(ext) => {
+                // the same goes for a foreign function: every call of the builtin - also the calls
+                // that the derives generate - would mean the foreign function instead
+                if builtin_names.contains(&ext.goml_name.to_ident_name()) {
+                    diagnostics.push(Diagnostic::new(
+                        Stage::Typer,
+                        Severity::Error,
+                        format!(
+                            "Function {} has the name of a builtin function and cannot be defined",
+                            ext.goml_name.to_ident_name()
+                        ),
+                    ));
+                }
                 note(
                     diagnostics,
                     &mut funcs,
